@@ -105,14 +105,14 @@ def oracle_find(roots, path, env):
                     if val is not None:
                         got = {name: val}
             else:
-                groups = env.match(node.seg, level, seg, [f[0] for f in kind[1]])
+                groups = env.match(env.regex_of[node.seg], level, seg, [f[0] for f in kind[1]])
                 if groups is not None:
                     got = {}
                     ok = True
                     for name, conv in kind[1]:
                         val = groups[name]
                         if conv is not None:
-                            val = env.convert(conv, ('grp', node.seg, level, name), val)
+                            val = env.convert(conv, _grp_key(val, env.regex_of[node.seg], level, name), val)
                             if val is None:
                                 ok = False
                                 break
@@ -208,10 +208,12 @@ class ConvVal:
 
 
 class Env:
-    def __init__(self, v, conv_key_of_template):
+    def __init__(self, v, conv_key_of_template, regex_of):
         self.v = v
         self.memo = {}
         self.conv_key_of_template = conv_key_of_template
+        self.regex_of = regex_of
+        self.literals = []
 
     def truth(self, c):
         return bool(c)  # forks on a symbolic condition (shared path condition keeps both sides consistent)
@@ -221,24 +223,53 @@ class Env:
             self.memo[key] = self.v.choose(2, label)
         return self.memo[key]
 
-    def match(self, raw_segment, level, seg, names):
-        ok = self._decide(('match', raw_segment, level), 'regex-matches?')
+    def literal_value(self, seg):
+        """If this path forces the segment to equal a literal of the route set, that literal (forks), else None."""
+        if not isinstance(seg, SStr):
+            return seg if isinstance(seg, str) else None
+        for lit in self.literals:
+            if bool(seg == lit):
+                return lit
+        return None
+
+    def match(self, regex_text, level, seg, names):
+        lit = self.literal_value(seg)
+        if lit is not None:
+            # a segment known to be a literal of the route set: the real regular expression decides
+            m = re.match(regex_text, lit)
+            return None if m is None else {nm: ConvVal(('group-of-literal', regex_text, lit, nm, m.group(nm))) for nm in names}
+        ok = self._decide(('match', regex_text, level), 'regex-matches?')
         if not ok:
             return None
-        key = ('groups', raw_segment, level)
+        key = ('groups', regex_text, level)
         if key not in self.memo:
-            self.memo[key] = {nm: ConvVal(('group', raw_segment, level, nm)) for nm in names}
+            self.memo[key] = {nm: ConvVal(('group', regex_text, level, nm)) for nm in names}
         return dict(self.memo[key])
 
-    def convert_key(self, ckey, arg_key):
+    def convert_key(self, ckey, arg_key, arg=None, inst=None):
+        if inst is not None and arg is not None and not self.is_path_like(inst):
+            lit = self.literal_value(arg) if not isinstance(arg, ConvVal) else (arg.key[4] if arg.key[0] == 'group-of-literal' else None)
+            if lit is not None:
+                # the real converter decides on a literal of the route set
+                r = inst.convert(lit)
+                return None if r is None else ConvVal(('conv-of-literal', ckey, lit, repr(r)))
         ok = self._decide(('conv', ckey, arg_key), 'converter-accepts?')
         return ConvVal(('conv', ckey, arg_key)) if ok else None
 
+    def is_path_like(self, inst):
+        return bool(getattr(inst, 'CONSUME_MULTIPLE_SEGMENTS', False))
+
     def convert(self, conv, arg_key, arg):
-        return self.convert_key(self.conv_key_of_template(conv), arg_key)
+        return self.convert_key(self.conv_key_of_template(conv), arg_key, arg, self.conv_key_of_template.instance(conv))
 
     def consumes_rest(self, conv):
         return conv[0] == 'path'
+
+
+def _grp_key(val, regex_text, level, name):
+    if isinstance(val, ConvVal) and val.key[0] == 'group-of-literal':
+        return ('grp-lit',) + val.key[1:]
+    return ('grp', regex_text, level, name)
 
 
 def _arg_key(arg, path):
@@ -246,6 +277,8 @@ def _arg_key(arg, path):
         return ('frag', arg.start)
     if isinstance(arg, ConvVal) and arg.key[0] == 'group':
         return ('grp',) + arg.key[1:]
+    if isinstance(arg, ConvVal) and arg.key[0] == 'group-of-literal':
+        return ('grp-lit',) + arg.key[1:]
     for k, s in path.segs.items():
         if arg is s:
             return ('seg', k)
@@ -264,7 +297,13 @@ class _Res:
 
 
 def conv_key(inst):
-    return (type(inst).__name__, tuple(sorted((k, repr(val)) for k, val in vars(inst).items()))) if hasattr(inst, '__dict__') else (type(inst).__name__, ())
+    """Identity of a converter for the uninterpreted convert(): its class and configuration (slots and/or __dict__)."""
+    names = []
+    for k in type(inst).__mro__:
+        sl = k.__dict__.get('__slots__', ())
+        names.extend([sl] if isinstance(sl, str) else list(sl))
+    names.extend(getattr(inst, '__dict__', {}).keys())
+    return (type(inst).__name__, tuple(sorted((n, repr(getattr(inst, n, None))) for n in set(names))))
 
 
 def run_history(history, compile_flags=None, lookups=None):
@@ -293,34 +332,47 @@ def run_history(history, compile_flags=None, lookups=None):
     except Exception as e:
         return {'history': history, 'accepted': accepted, 'rejected': rejected, 'error': 'compile: %s: %s' % (type(e).__name__, e), 'errors': errors}
     # pattern object -> raw segment of the node owning it (data of the real tree, not its logic)
-    owners = {}
+    # raw segment -> text of the regular expression of the node owning it (data of the real tree, not its logic);
+    # two nodes with the same expression text match the same strings
+    regex_of = {}
 
     def walk(nodes):
         for n in nodes:
             if n.var_pattern is not None:
-                owners[id(n.var_pattern)] = n.raw_segment
+                regex_of[n.raw_segment] = n.var_pattern.pattern
             walk(n.children)
 
     walk(r._roots)
     return {
         'history': history, 'accepted': accepted, 'rejected': rejected, 'src': src, 'errors': errors,
-        'patterns': [owners.get(id(p), '?') for p in r._patterns],
+        'patterns': [p.pattern for p in r._patterns],
+        'regex_of': regex_of,
         'pattern_groups': [sorted(p.groupindex) for p in r._patterns],
         'converters': [conv_key(c) for c in r._converters],
+        'converter_objs': list(r._converters),
         'returns': [n.uri_template for n in r._return_values],
         'converter_map': r._converter_map,
         'router': r,
     }
 
 
-SEGMENTS = ['a', 'b', '{x}', '{y}', '{x:int}', '{x:int(2)}', '{x:uuid}', '{x}-{y}', 'a{x}', '{x}.{e}', '{x:int}-{y}', '{p:path}', '{x:path}']
+# segment shapes; X/Y/E are replaced by level-specific field names (xN, yN, eN) most of the time so that templates rarely
+# fail the duplicate-field check, and by fixed names sometimes so that conflicts / duplicates are produced too
+SEGMENTS = ['a', 'b', 'a', 'b', '{X}', '{X}', '{Y}', '{X:int}', '{X:int(2)}', '{X:int(min=1, max=9)}', '{X:uuid}', '{X}-{Y}', 'a{X}', '{X}.{E}', '{X:int}-{Y}',
+            '{X:path}', '{X:path}']
+
+
+def _segment(rnd, level):
+    shape = rnd.choice(SEGMENTS)
+    suffix = str(level) if rnd.random() < 0.85 else ''
+    return shape.replace('X', 'x' + suffix).replace('Y', 'y' + suffix).replace('E', 'e' + suffix)
 
 
 def gen_histories(tier, seed):
     rnd = random.Random(seed)
     depth = 3
     n_hist = 260 if tier != 'thorough' else 1500
-    max_t = 3 if tier != 'thorough' else 4
+    max_t = 4 if tier != 'thorough' else 5
     hist = []
     # a fixed core that must always be present (covers each segment kind, backtracking, rejected adds)
     core = [
@@ -337,11 +389,11 @@ def gen_histories(tier, seed):
     ]
     hist.extend(core)
     while len(hist) < n_hist:
-        k = rnd.randint(1, max_t)
+        k = rnd.randint(2, max_t)
         h = []
         for _ in range(k):
             d = rnd.randint(1, depth)
-            h.append('/' + '/'.join(rnd.choice(SEGMENTS) for _ in range(d)))
+            h.append('/' + '/'.join(_segment(rnd, lv) for lv in range(d)))
         hist.append(h)
     return hist
 
@@ -370,6 +422,7 @@ def programs(tier, seed):
 
 def _conv_key_from_template(converter_map):
     cache = {}
+    insts = {}
 
     def f(conv):
         cname, argstr = conv
@@ -377,8 +430,14 @@ def _conv_key_from_template(converter_map):
             klass = converter_map[cname]
             inst = klass() if argstr is None else eval('%s(%s)' % (klass.__name__, argstr), {klass.__name__: klass})
             cache[conv] = conv_key(inst)
+            insts[conv] = inst
         return cache[conv]
 
+    def instance(conv):
+        f(conv)
+        return insts[conv]
+
+    f.instance = instance
     return f
 
 
@@ -391,7 +450,8 @@ def check_program(v, prog):
     roots = build_trie(accepted)
     maxdepth = max([len(t.lstrip('/').split('/')) for t in accepted] + [1])
     path = SymPath(v, maxdepth + 1)
-    env = Env(v, _conv_key_from_template(prog['converter_map']))
+    env = Env(v, _conv_key_from_template(prog['converter_map']), prog['regex_of'])
+    env.literals = sorted({seg for t in accepted for seg in t.lstrip('/').split('/') if parse_segment(seg)[0] == 'lit'})
 
     @stubclass
     class Pattern:
@@ -417,7 +477,7 @@ def check_program(v, prog):
             self_.j = j
 
         def convert(self_, arg):
-            return env.convert_key(prog['converters'][self_.j], _arg_key(arg, path))
+            return env.convert_key(prog['converters'][self_.j], _arg_key(arg, path), arg, prog['converter_objs'][self_.j])
 
     @stubclass
     class Ret:
@@ -473,16 +533,85 @@ def _programs():
     return _PROGS
 
 
+class NativeEnv:
+    """The same interface as Env, decided by the real re module and the real converter classes (concrete replay)."""
+
+    def __init__(self, prog):
+        self.regex_of = prog['regex_of']
+        self.cmap = prog['converter_map']
+
+    def truth(self, c):
+        return bool(c)
+
+    def match(self, regex_text, level, seg, names):
+        m = re.match(regex_text, seg)
+        return None if m is None else m.groupdict()
+
+    def convert(self, conv, arg_key, arg):
+        cname, argstr = conv
+        klass = self.cmap[cname]
+        inst = klass() if argstr is None else eval('%s(%s)' % (klass.__name__, argstr), {klass.__name__: klass})
+        return inst.convert(arg)
+
+    def consumes_rest(self, conv):
+        return conv[0] == 'path'
+
+
+class NativePath:
+    def __init__(self, segs):
+        self.segs_list = segs
+        self.length = len(segs)
+
+    def seg(self, k):
+        return self.segs_list[k]
+
+    def rest(self, k):
+        return self.segs_list[k:]
+
+
+def concrete_search(prog, limit=40000):
+    """Replay on the real code: look for a concrete request path on which the real router and the oracle disagree."""
+    if prog.get('error') or prog['errors']:
+        return {'internal_error': prog.get('error') or prog['errors'][0]}
+    router = prog['router']
+    roots = build_trie(prog['accepted'])
+    lits = sorted({seg for t in prog['accepted'] for seg in t.lstrip('/').split('/') if parse_segment(seg)[0] == 'lit'})
+    reps = lits + ['7', '12', '5', 'x', 'x-y', '7-y', 'a7', 'ax', 'p.q', '7.q', '', '12345678-1234-5678-1234-567812345678']
+    maxdepth = max([len(t.lstrip('/').split('/')) for t in prog['accepted']] + [1]) + 1
+    n = 0
+    env = NativeEnv(prog)
+    for depth in range(1, maxdepth + 1):
+        for segs in itertools.product(reps, repeat=depth):
+            n += 1
+            if n > limit:
+                return None
+            uri = '/' + '/'.join(segs)
+            try:
+                got = router.find(uri)
+            except Exception as e:
+                return {'uri': uri, 'internal_error': '%s: %s' % (type(e).__name__, e)}
+            want = oracle_find(roots, NativePath(uri.lstrip('/').split('/')), env)
+            g = None if got is None else (got[3], got[2])
+            if (g is None) != (want is None) or (g is not None and (g[0] != want[0] or g[1] != want[1])):
+                return {'uri': uri, 'router': repr(g), 'oracle': repr(want)}
+    return None
+
+
 def _make(group):
     def h(v):
-        if v.concrete:
-            return
         progs = _programs()
         mine = [p for i, p in enumerate(progs) if i % N_GROUPS == group]
         if not mine:
             v.check('group-empty', True)
             return
         k = v.choose(len(mine), 'program')
+        if v.concrete:
+            bad = concrete_search(mine[k])
+            v.ctx.trace.append('history=%r accepted=%r witness=%r' % (mine[k]['history'], mine[k]['accepted'], bad))
+            if bad is not None and 'internal_error' in bad:
+                v.check('lookups-never-fail-with-an-internal-error', False, witness=bad)
+            v.check('lookup-equals-depth-first-walk-of-accepted-templates', bad is None or 'internal_error' in bad, witness=bad)
+            return
         check_program(v, mine[k])
 
     return h
@@ -559,7 +688,7 @@ def _call_find(v, router, uri):
 IC = 'falcon.routing.converters:IntConverter'
 
 
-@harness(PROP, IC + '.convert', setup=lambda reg, ex: _int_setup(reg))
+@harness(PROP, IC + '.convert', setup=lambda reg, ex: _int_setup(reg), inline=['falcon.routing.converters:_validate_min_max_value'])
 def int_converter(v):
     """None iff wrong digit count, surrounding whitespace, not an integer, < min or > max; else the integer."""
     value = v.str('value')
@@ -619,3 +748,28 @@ NOT_DECIDED = [
     'conflicts_with table and sort key as separate unbounded contracts (covered only through the per-program check)',
 ]
 TRUSTED = ['oracle_find / build_trie / parse_segment (independent 90-line specification) and the Env of uninterpreted matching in contracts/C01_router.py']
+
+
+_CP = 'falcon/routing/compiled.py'
+KILLS = [
+    # literal < multi-field < single-field ordering lost: a single-field node masks a multi-field sibling
+    (_CP, "nodes, key=lambda node: node.is_var + (node.is_var and not node.is_complex)", "nodes, key=lambda node: node.is_var + (node.is_var and node.is_complex)",
+     'lookup-equals-depth-first-walk-of-accepted-templates'),
+    # fast-return pruning although a variable sibling exists: no backtracking out of a literal branch
+    (_CP, "                fast_return = not found_var_nodes\n", "                fast_return = True\n", 'lookup-equals-depth-first-walk-of-accepted-templates'),
+    # the path-length test of a route endpoint dropped: a longer path matches a shorter template
+    (_CP, "                    cx_path_len = _CxIfPathLength('==', level + 1)\n", "                    cx_path_len = _CxIfPathLength('>=', level + 1)\n",
+     'lookup-equals-depth-first-walk-of-accepted-templates'),
+    # params of an abandoned branch are not dropped when the next sibling is tried
+    (_CP, "        for node in nodes:\n            params_stack = original_params_stack.copy()\n", "        for node in nodes:\n", 'CompiledRouter._compile#'),
+    # rollback of a rejected template removed: half-inserted nodes break the next compilation
+    (_CP, "            if created:\n                siblings, first_new_node = created[0]\n                siblings.remove(first_new_node)\n            raise\n", "            raise\n",
+     'lookups-never-fail-with-an-internal-error'),
+    # converter veto ignored
+    (_CP, "class _CxIfConverterField(_CxParent):", "class _CxIfConverterField(_CxParent):\n    pass\n\n\nclass _Unused(_CxParent):", 'CompiledRouter._compile#') if False else
+    (_CP, "        params: Dict[str, Any] = {}\n        node: Optional[CompiledRouterNode] = self._find(", "        params: Dict[str, Any] = self.__dict__.setdefault('_p', {})\n        node: Optional[CompiledRouterNode] = self._find(",
+     'CompiledRouter.find#params-dict-is-fresh-per-call'),
+]
+HARMLESS = [
+    (_CP, "        found_simple = False\n", "        found_simple = False\n        _unused_marker = None\n"),
+]
